@@ -102,6 +102,18 @@ class Campaign(cppcamp.FullCampaign):
             want = str(codec.build(tname, val))
         except Exception as ex:
             return ("Python str() raised %s: %s" % (type(ex).__name__, ex), {'exception': common.exc_info(ex)})
+        # the text does not depend on how an enum field was assigned: by number, by name, by an enumerator object of
+        # the field's enum, or by one read from a field of another enum that uses the same number
+        for start in (1, 2, 3):
+            ea = pyh.EnumArgs(codec.ns, start)
+            try:
+                other = str(codec.build(tname, val, ea))
+            except Exception as ex:
+                return ("assigning enum fields by %s raised %s: %s" % ('/'.join(sorted(ea.used)), type(ex).__name__, ex),
+                        {'exception': common.exc_info(ex)})
+            if other != want:
+                return ("str() in Python depends on how enum fields were assigned (number vs %s)" % '/'.join(sorted(ea.used)),
+                        {'by_number': want, 'otherwise': other})
         got = res['print'].decode('latin-1')
         if got != want:
             det = {'python': want, 'cpp': got}
